@@ -523,6 +523,13 @@ def check_case(case):
       performed.append((pi, entries, args, dict(kwargs)))
       dirty[0] = False
       received.append(normalise({k: rec[k] for k in ('named', 'args', 'kw')}))
+      if case.get('scribble'):
+        # a careless callee edits the containers it was handed: what Gin records as used, and what
+        # later calls receive, is not affected
+        for x in list(rec['named'].values()) + list(rec['kw'].values()):
+          if isinstance(x, list) and not any(x is o for o in list(args) + list(kwargs.values())):
+            x.append('scribbled')
+            labels.add('callee-edits-received-container')
       scopes_called.add('/'.join(active))
       n_calls += 1
       caller_sup |= {(pi, p) for p in supplied}
@@ -682,6 +689,8 @@ def _static_case(draw):
     if defaulted and draw(st.booleans()):
       shape['nonliteral_defaults'] = draw(st.lists(st.sampled_from(defaulted), unique=True,
                                                    max_size=2))
+      if shape['nonliteral_defaults'] and draw(st.booleans()):
+        shape['nonliteral_kind'] = draw(st.sampled_from(['inf', '-inf']))
     named = [p for p in G.named_params(shape)
              if not (shape.get('posonly_first_default') and shape['dflt'][:1] == [p])]
     lists = draw(st.sampled_from(['none', 'none', 'allow', 'deny']))
@@ -766,4 +775,5 @@ def _static_case(draw):
     steps += [['call', pi, entries, spec], ['rebind_key', pi, '<<EQUAL>>', scope, param],
               ['call', pi, entries, spec]]
   return {'probes': probes, 'macros': macros, 'bindings': bindings, 'steps': steps,
-          'finalize_first': draw(st.integers(0, 3)) == 0}
+          'finalize_first': draw(st.integers(0, 3)) == 0,
+          'scribble': draw(st.integers(0, 2)) == 0}
